@@ -398,14 +398,6 @@ func runC18(c *vc.Ctx) error {
 		l.runLiveOne(i)
 		return nil
 	}
-	if debugLive {
-		go func() {
-			time.Sleep(170 * time.Second)
-			buf := make([]byte, 1<<24)
-			buf = buf[:runtime.Stack(buf, true)]
-			ioutil.WriteFile(filepath.Join(vc.VerifDir, "bin", "pdlab-stacks.txt"), buf, 0644)
-		}()
-	}
 	nSync := c.Pick(400, 20000)
 	nLive := c.Pick(3, 48)
 	start := time.Now()
